@@ -313,14 +313,23 @@ pub fn g_shift_tail() -> impl Strategy<Value = Vec<u8>> {
 /// by one codeword (the second Base256 length byte, the "to the end of the symbol" length 0, an unlatch
 /// saved at the end) are made exactly here.
 pub fn g_capacity_shaped() -> impl Strategy<Value = Vec<u8>> {
-    (any::<u16>(), any::<u16>(), 0usize..=2, vec((any::<u16>(), any::<u8>(), any::<u8>()), 0..=4), any::<u64>(), any::<u8>()).prop_map(|(csel, fam, delta, foreign, seed, pos_mode)| {
+    (any::<u16>(), any::<u16>(), 0usize..=2, vec((any::<u16>(), any::<u8>(), any::<u8>()), 0..=5), any::<u64>(), any::<u8>()).prop_map(|(csel, fam, delta, foreign, seed, pos_mode)| {
         let mut caps: Vec<usize> = SYMBOLS.iter().map(|s| s.data).collect();
         caps.sort_unstable();
         caps.dedup();
         // three quarters of the cases below 460 codewords
-        let cap = if csel % 4 != 0 { caps[pick(csel / 4, caps.iter().filter(|c| **c <= 456).count())] } else { caps[pick(csel / 4, caps.len())] };
+        let family = pick(fam, 8);
+        let cap = if family >= 6 && csel % 2 == 0 {
+            // Base256 against ASCII on both sides of the two-byte length field
+            [204usize, 280, 368, 456, 576, 252, 254, 280][pick(csel / 2, 8)]
+        } else if csel % 4 != 0 {
+            caps[pick(csel / 4, caps.iter().filter(|c| **c <= 456).count())]
+        } else {
+            caps[pick(csel / 4, caps.len())]
+        };
+        let cap = if caps.contains(&cap) { cap } else { 280 };
         let room = cap.saturating_sub(delta);
-        let (class, n) = match pick(fam, 8) {
+        let (class, n) = match family {
             0 => (11usize, room),                            // ASCII-only characters, one codeword each
             1 => (0, 2 * room),                              // digits
             2 => (1, room.saturating_sub(1) * 3 / 2),        // C40
@@ -343,7 +352,7 @@ pub fn g_capacity_shaped() -> impl Strategy<Value = Vec<u8>> {
         for (j, (p, fc, fv)) in foreign.into_iter().enumerate() {
             // first / middle / last positions one time in two, otherwise anywhere
             let at = if pos_mode & 1 == 0 { [0, n / 2, n - 1, n.saturating_sub(2)][j % 4] } else { pick(p, n) };
-            let fclass = [8usize, 8, 0, 1, 2, 6, 7, 11][(fc % 8) as usize];
+            let fclass = if family >= 6 && fc % 4 != 0 { 8 } else { [8usize, 8, 0, 1, 2, 6, 7, 11][(fc % 8) as usize] };
             v[at] = if fclass == 11 { b'~' } else { class_char(fclass, fv) };
         }
         let _ = nf;
